@@ -402,7 +402,7 @@ pub fn make_config(args: &Args, state: &State) -> Result<Config> {
 										job.signal(if cfg!(windows) {
 											Signal::ForceStop
 										} else {
-											stop_signal.or(signal).unwrap_or(Signal::Terminate)
+											signal.or(stop_signal).unwrap_or(Signal::Terminate)
 										});
 									}
 									OnBusyUpdate::Restart if cfg!(windows) => {
